@@ -793,7 +793,7 @@ def sc_cg(V, P, cfg):
     # (z3 answers `unknown` quickly; every obligation is still closed by the simplifier / the path condition)
     rat = bool(cfg.get("rat", ncol == 1 and not xc))
     x0 = None
-    if cfg["x0"]:
+    if cfg["x0"] and not cfg.get("x0_is_rhs"):
         x0 = V.cplxs("x0", shp) if xc else V.reals("x0", shp)
     w = V.real("w", positive=True, hi=1, default=0.75) if cfg["prec"] == "jacobi" else None
     roots = []
@@ -937,6 +937,8 @@ def sc_cg(V, P, cfg):
             try:
                 b_arg = b.copy()
                 x0_arg = None if x0 is None else x0.copy()
+                if cfg.get("x0_is_rhs"):
+                    x0_arg = b_arg          # the caller uses the right-hand side itself as the initial guess (one array)
                 x = s.solve(b_arg, x0=x0_arg, trans=t)
             except ValueError as e:
                 # np.stack([]) in orth(): every candidate direction was dropped.  Only the exact-zero test `beta_i == 0` taken
@@ -965,18 +967,19 @@ def sc_cg(V, P, cfg):
     obs = dict(x=x, warned=int(warned), A=A, b=b, nsnap=len(snaps))
     if not V.symbolic:
         obs["_chg:rhs"] = float(np.max(np.abs(np.asarray(b_arg, dtype=complex) - np.asarray(b, dtype=complex))))
-        obs["_chg:x0"] = 0.0 if x0 is None else float(np.max(np.abs(np.asarray(x0_arg, dtype=complex) - np.asarray(x0, dtype=complex))))
-        obs["_chg:alias"] = 0.0 if x0 is None else float(x is x0_arg or np.shares_memory(np.asarray(x), np.asarray(x0_arg)))
     for i_, (r_, x_) in enumerate(snaps[:3]):
         obs["snap_r%d" % i_], obs["snap_x%d" % i_] = _fin(V, r_), _fin(V, x_)
     if P is not None:
-        # the caller's arrays are left alone and are not handed back as the result
-        P.arrays_eq("cg:rhs-unchanged", np.asarray(b_arg).reshape(n, ncol), bm, kind="cg:arguments-unchanged")
-        if x0 is not None:
-            P.arrays_eq("cg:x0-unchanged", np.asarray(x0_arg).reshape(n, ncol), np.asarray(x0).reshape(n, ncol),
-                        kind="cg:arguments-unchanged")
-            P.holds("cg:result-is-not-the-x0-object", x is not x0_arg and not np.shares_memory(np.asarray(x), np.asarray(x0_arg)),
-                    kind="cg:arguments-unchanged")
+        # the caller's right-hand side is left alone (A x = b is a statement about the b that was passed)
+        t_keep0 = P.timeout_ms
+        P.timeout_ms = min(P.timeout_ms, 2500)
+        obl_ = P.arrays_eq("cg:rhs-unchanged", np.asarray(b_arg).reshape(n, ncol), bm, kind="cg:arguments-unchanged")
+        P.timeout_ms = t_keep0
+        if V.symbolic:
+            _fallback_probe(V.c, obl_, np.asarray(b_arg).reshape(n, ncol), bm)
+        # (decided without the solver: a result stored in the caller's rhs array has overwritten it)
+        P.holds("cg:rhs-unchanged:the-result-is-not-stored-in-the-rhs-array",
+                not (isinstance(x, np.ndarray) and np.shares_memory(np.asarray(x), np.asarray(b_arg))), kind="cg:arguments-unchanged")
         P.holds("cg:shape", np.shape(x) == shp, kind="cg:shape")
         P.holds("cg:residual-norm-observed", len(snaps) >= 1, kind="cg:invariant")
         t_keep = P.timeout_ms
@@ -1083,6 +1086,8 @@ def sc_cg_degenerate(V, P, cfg):
         b = np.stack([b1, np.array([2.0, -1.0], dtype=A.dtype)], axis=1)
     elif case == "dependent-columns":
         b = np.stack([b1, 2 * b1], axis=1)
+    elif case in ("x0-is-the-rhs-array", "x0-is-the-rhs-block"):
+        b = b1 * np.array([1.0, -0.5]) if case.endswith("array") else np.stack([b1, np.array([2.0, -1.0], dtype=A.dtype)], axis=1)
     else:   # solved-column: x0[:, 1] solves the second column exactly
         xs = np.array([0.75, 0.875], dtype=A.dtype)
         b = np.stack([b1, A @ xs], axis=1)
@@ -1094,7 +1099,11 @@ def sc_cg_degenerate(V, P, cfg):
         s = CG(sps.csc_matrix(A), tol=1e-10)
         with warnings.catch_warnings(record=True) as wl:
             warnings.simplefilter("always")
-            x = s.solve(b.copy(), x0=(None if x0 is None else x0.copy()), trans=cfg.get("trans", "N"))
+            if case.startswith("x0-is-the-rhs"):
+                barg = b.copy()
+                x = s.solve(barg, x0=barg, trans=cfg.get("trans", "N"))     # the caller's ONE array as rhs and as guess
+            else:
+                x = s.solve(b.copy(), x0=(None if x0 is None else x0.copy()), trans=cfg.get("trans", "N"))
     finally:
         if V.symbolic:
             npshim.install()
@@ -1459,13 +1468,15 @@ def items(tier):
         for prec in ("identity", "jacobi"):
             cg(t, prec, True, 1, 2, "r", False, False)
         # a solver object that was set up for another matrix and used in the same mode before update(A)
+        cg(t, "identity", True, 1, 1, "r-x0-is-the-rhs-array", False, False, rat=False, x0_is_rhs=True)
         cg(t, "identity", False, 1, 1, "r-reupdate", False, False, prior_matrix=True)
         cg(t, "identity", True, 1, 1, "c-reupdate", True, True, prior_matrix=True)
         cg(t, "free", True, 50, 2, "r", False, False)
         if not q:
             cg(t, "identity", False, 50, 2, "r", False, False)
             cg(t, "identity", False, 1, 2, "c", True, True)
-    for case in ("zero-rhs", "zero-column", "zero-first-column", "solved-column", "two-columns", "dependent-columns"):
+    for case in ("zero-rhs", "zero-column", "zero-first-column", "solved-column", "two-columns", "dependent-columns",
+                 "x0-is-the-rhs-array", "x0-is-the-rhs-block"):
         for mat in ("r1", "r2", "c1"):
             for t in (("N",) if mat != "c1" else TRANS):
                 add("cgdeg", "%s-%s-%s" % (case, mat, t), case=case, mat=mat, trans=t)
@@ -1619,7 +1630,7 @@ def replay(cfg, label, env, case):
         A, b, x = np.asarray(obs["A"], dtype=complex), np.asarray(obs["b"], dtype=complex), np.asarray(obs["x"], dtype=complex)
         if label == "cg:shape":
             return dict(reproduced=bool(x.shape != b.shape), detail=dict(shape_x=list(x.shape), shape_b=list(b.shape)))
-        for pre, key in (("cg:rhs-unchanged", "_chg:rhs"), ("cg:x0-unchanged", "_chg:x0"), ("cg:result-is-not-the-x0-object", "_chg:alias")):
+        for pre, key in (("cg:rhs-unchanged", "_chg:rhs"),):
             if label.startswith(pre):
                 return dict(reproduced=bool(obs.get(key, 0.0) > 0), detail={"clause": pre, "observed_on_the_real_library": obs.get(key, 0.0)})
         ncol = 1 if b.ndim == 1 else b.shape[1]
